@@ -51,6 +51,42 @@ def make_request(stub, vt, header_len, sign, use_async, prior=()):
     return wire, auth, resp
 
 
+def after_bind(ctx):
+    """the framing of a request on a connection whose header-signing state came out of a REAL bind handshake: 1..3 legs whose acks
+    advertise PFC_SUPPORT_HEADER_SIGN in every combination; the PDU header and the security-trailer header are handed to the security
+    context as sign-only buffers exactly when every ack advertised it, and as unprotected (clear) buffers otherwise"""
+    import itertools
+    from props import c15
+    alpha = c15.server_alphabet(ctx.rng)
+    for k in (1, 2, 3):
+        for flags in itertools.product((0, 1), repeat=k):
+            script = [(b"tok%d" % i, i == k - 1) for i in range(k)]
+            c, prov, sent, out, ack, replies = c15.run_bind(script, [alpha[f"ackAA{f}t"] for f in flags], True, False)
+            inp = {"ack_header_sign_flags": list(flags), "scenario": "after_bind"}
+            ctx.count("after_bind")
+            if not out.startswith("ok"):
+                ctx.violation("bind fails against an accepting server", inp, out[:80], "ok")
+                continue
+            want = all(flags)
+            reply, _ = rpcsim.sealed_response(b"\x01\x02\x03\x04", prov.header_len, want)
+            c._sock.replies.append(reply)
+            err = None
+            try:
+                c.request(0, 0, b"stub after bind")
+            except Exception as e:  # noqa
+                err = canon_exc(e)
+            if prov.wrap_calls and bool(prov.wrap_calls[-1][3]) == want and err is not None:
+                ctx.violation("request() fails after a successful bind", inp, err, "ok")
+                continue
+            if not prov.wrap_calls:
+                ctx.violation("request framing: the request went out without being sealed", inp, "no wrap call", "one")
+                continue
+            (h_, b_, t_, s_) = prov.wrap_calls[-1]
+            if bool(s_) != want:
+                ctx.violation("request framing: header / trailer header signed although an ack declined header signing (or not signed although all advertised it)",
+                              inp, f"sign_header={bool(s_)}", f"sign_header={want}")
+
+
 def run(ctx):
     from dpapi_ng import _client as cl
     from dpapi_ng._gkdi import GetKey
@@ -141,6 +177,7 @@ def run(ctx):
         cases.append((f"getkey_result {hx(reply)} none", "ok " + gen.env_fields(cl._process_get_key_result(resp))))
     for i in range(0, len(cases), 2000):
         ctx.compare_batch(cases[i:i + 2000], nontrivial=lambda line, impl: True)
+    after_bind(ctx)
 
 
 def search(ctx, broken, disagreements):
